@@ -840,3 +840,64 @@ Proof. vm_compute. reflexivity. Qed.
    and FlushLogger waits at least the second that the harness's "small backlog" scenarios assume *)
 Lemma tree_constants_in_range : 0 < c_rogger_queue_cap /\ 1000 <= c_rogger_wait_flush_timeout_ms.
 Proof. vm_compute. split; [reflexivity | discriminate]. Qed.
+
+(* ---------- FlushLogger is one-shot (the model-level reading of the known finding "second flush") ---------- *)
+
+Lemma step_cnt cap s l s' : step cap s l = Some s' ->
+  (forall g, cnt s g <= cnt s' g) /\ (forall e, calls_of [l] = [e] -> en e = cnt s (eg e) /\ cnt s' (eg e) = en e + 1).
+Proof.
+  intros Hs. destruct l; crush_step Hs; split; try (intros; lia); try (intros ? X; discriminate).
+  - intros g. unfold upd. destruct (g =? eg e) eqn:E; [apply N.eqb_eq in E; subst; lia | lia].
+  - intros x X. inversion X; subst. rewrite upd_same. apply N.eqb_eq in Heqb. split; lia.
+Qed.
+
+Lemma run_cnt cap ls : forall s s', run cap s ls = Some s' -> forall g, cnt s g <= cnt s' g.
+Proof.
+  induction ls as [|l ls IH]; intros s s' Hr g. { inversion Hr; subst. lia. }
+  rewrite run_cons in Hr. destruct (step cap s l) as [m|] eqn:E; [|discriminate].
+  pose proof (proj1 (step_cnt _ _ _ _ E) g). pose proof (IH _ _ Hr g). lia.
+Qed.
+
+Lemma run_calls_lt cap ls : forall s s', run cap s ls = Some s' -> forall e, In e (calls_of ls) -> en e < cnt s' (eg e) /\ cnt s (eg e) <= en e.
+Proof.
+  induction ls as [|l ls IH]; intros s s' Hr e Hin; [contradiction|].
+  rewrite run_cons in Hr. destruct (step cap s l) as [m|] eqn:E; [|discriminate].
+  destruct (step_cnt _ _ _ _ E) as [Mono New].
+  replace (calls_of (l :: ls)) with (calls_of [l] ++ calls_of ls) in Hin by (destruct l; reflexivity).
+  apply in_app_or in Hin. destruct Hin as [Hin | Hin].
+  - destruct l; cbn in Hin; try contradiction. destruct Hin as [<- | []].
+    destruct (New e0 eq_refl) as [A B]. pose proof (run_cnt _ _ _ _ Hr (eg e0)). lia.
+  - destruct (IH _ _ Hr e Hin) as [A B]. pose proof (Mono (eg e)). lia.
+Qed.
+
+Lemma writes_of_split ls e : In e (writes_of ls) -> exists a l b, ls = a ++ l :: b /\ writes_of [l] = [e].
+Proof.
+  induction ls as [|x ls IH]; cbn; [contradiction|]. intros Hin.
+  assert (X : In e (writes_of [x]) \/ In e (writes_of ls)).
+  { destruct x; cbn in *; auto; destruct Hin as [<- | Hin]; auto. }
+  destruct X as [X | X].
+  - exists [], x, ls. split; [reflexivity|]. destruct x; cbn in *; try contradiction; destruct X as [<- | []]; reflexivity.
+  - destruct (IH X) as (a & l & b & -> & W). exists (x :: a), l, b. split; [reflexivity | exact W].
+Qed.
+
+(* an entry logged after the acknowledged flush is never handed to its writer, whatever follows: the flusher has
+   returned. (In the code a later FlushLogger call returns at once, asyncDone being cancelled for good.) *)
+Theorem logged_after_ack_never_written cap l1 l3 s :
+  run cap init (l1 ++ FlushRet true :: l3) = Some s ->
+  forall e, In e (calls_of l3) -> ~ In e (writes_of (l1 ++ FlushRet true :: l3)).
+Proof.
+  intros H e Hc Hw. pose proof (no_write_after_ack _ _ _ _ H) as W3.
+  rewrite writes_of_app in Hw. cbn [writes_of] in Hw. rewrite W3, app_nil_r in Hw.
+  destruct (writes_of_split _ _ Hw) as (a & l & b & -> & Wl).
+  rewrite <- app_assoc in H. cbn [app] in H.
+  pose proof (write_was_logged _ _ _ _ _ _ H Wl) as Ca.
+  rewrite app_comm_cons, app_assoc in H. destruct (run_split _ _ _ _ _ _ H) as (m & m' & R1 & S & R3).
+  assert (In e (calls_of (a ++ l :: b))) as Cl by (rewrite calls_of_app; apply in_or_app; now left).
+  destruct (run_calls_lt _ _ _ _ R1 _ Cl) as [A _]. destruct (run_calls_lt _ _ _ _ R3 _ Hc) as [_ B].
+  pose proof (proj1 (step_cnt _ _ _ _ S) (eg e)). lia.
+Qed.
+Example logged_after_ack_witness :
+  exists s, run 4 init [LogCall e00; Enq 0; LogRet e00; FlushCall; Request; PollTake e00; PollEmpty; InnerSync; DrainDone;
+                        FlushRet true; LogCall e01; Enq 0; LogRet e01] = Some s
+            /\ fp s = Done /\ q s = [e01] /\ written s = [e00] /\ retd s = [e01; e00].
+Proof. eexists. vm_compute. repeat split. Qed.
